@@ -22,12 +22,54 @@ RULE = ('bases: orders 1..6 (8 thorough), open / non-open / periodic with every 
         'minimum sizes, random affine placement; points: every knot from both sides, both ends, span interiors, periodic '
         'points several periods away; d = 0..p+1.  distinct = distinct (basis, t, d, side); non-trivial = t in the domain '
         '(after wrapping) so that a non-zero row is demanded.')
-REQUIRED_TAGS = ['far-from-origin', 'far:left@interior-knot', 'multi-point-call', 'multi-point:left', 'periodic', 'open', 'left@interior-knot-mult>=2', 'periodic-wrap-n<p', 'd>=p', 'left@start', 'at-end', 'outside-periodic']
+REQUIRED_TAGS = ['free-multiplicities', 'end-knot-repeated-inside@end:right', 'far-from-origin', 'far:left@interior-knot', 'multi-point-call', 'multi-point:left', 'periodic', 'open', 'left@interior-knot-mult>=2', 'periodic-wrap-n<p', 'd>=p', 'left@start', 'at-end', 'outside-periodic']
 TOLF = F(1, 10 ** 10)
+
+
+def _free_basis(rng, p):
+    """Arbitrary non-decreasing (non-open) knot vector: multiplicities 1..p ANYWHERE, in particular the
+    domain-end knot repeated inside the function range (knots[n_all-1] == knots[n_all]) and the
+    domain-start knot repeated (knots[p-1] == knots[p])."""
+    while True:
+        vals = gen.increasing(rng, rng.randint(3, 7))
+        knots = []
+        for v in vals:
+            knots += [v] * rng.randint(1, p)
+        if len(knots) < 2 * p:
+            continue
+        n_all = len(knots) - p
+        if knots[p - 1] < knots[n_all]:
+            return {'order': p, 'knots': knots, 'periodic': -1}
+
+
+def _repeated_end_basis(rng, p):
+    """Non-open vector whose domain-end value occupies positions n_all-1 and n_all (and possibly more)."""
+    assert p >= 2
+    left = gen.increasing(rng, rng.randint(p, p + 3))
+    e = left[-1] + 1.0
+    m = rng.randint(2, p)                      # multiplicity of the end value
+    tail = [e + 0.5 * (j + 1) for j in range(p - 1)]   # p-1 knots strictly after: end index = n_all
+    # place the m copies so that the LAST copy sits at index n_all
+    knots = left + [e] * m + tail
+    # n_all = len(knots) - p must be the index of the last copy of e
+    n_all = len(knots) - p
+    assert knots[n_all] == e and knots[n_all - 1] == e, (knots, n_all)
+    return {'order': p, 'knots': knots, 'periodic': -1}
 
 
 def generate(rng, tier):
     specs = []
+    # non-open vectors with repeated domain-end / arbitrary multiplicities (every point, all d, both sides)
+    for bi in range(10 if tier == 'quick' else 120):
+        p = rng.randint(2, 5)
+        b = _repeated_end_basis(rng, p) if bi % 2 == 0 else _free_basis(rng, p)
+        info = gen.basis_info(b)
+        pts = [x for x in gen.distinct_knots(b) if info['start'] <= x <= info['end']]
+        pts += [(x + y) / 2 for x, y in zip(pts[:-1], pts[1:])]
+        for t in pts:
+            for d in range(0, p):
+                for right in (True, False):
+                    specs.append({'basis': b, 't': t, 'd': d, 'right': right, 'free': True})
     nb = 70 if tier == 'quick' else 1200
     pmax = 6 if tier == 'quick' else 8
     for bi in range(nb):
@@ -141,6 +183,11 @@ def tags(s, res):
     info = gen.basis_info(b)
     t, d, right = s['t'], s['d'], s['right']
     out = ['p=%d' % info['p'], 'periodic' if info['k'] >= 0 else 'open', 'd=%d' % min(d, 9)]
+    if s.get('free'):
+        out.append('free-multiplicities')
+        n_all = len(b['knots']) - info['p']
+        if t == info['end'] and b['knots'][n_all - 1] == b['knots'][n_all]:
+            out.append('end-knot-repeated-inside@end:' + ('right' if right else 'left'))
     if s.get('far'):
         out.append('far-from-origin')
         if not right and info['start'] < t < info['end'] and any(x == t for x in b['knots']):
